@@ -24,6 +24,10 @@ claimed={
         'Every frame handed to a spectator must equal the host final timeline (values and Disconnected statuses), never beyond the host confirmation; pacing and SpectatorTooFarBehind are checked against frames_behind_host(); players must simulate identically with and without spectators.'),
  'C08':(M,'6 C08','live injection grid: every single-aspect forgery of an authentic Input (status count, start frame, enumerated payload bytes, substitutions, truncations, wrong frame sizes), every message kind under a foreign magic, unknown source address, at every round of handshake/running/after-disconnect/after-shutdown and both positions; differential oracle against the run without injection; allocation measured by a counting allocator',
         'A forged packet must cause no panic, no allocation above the bound, and leave the session behaving exactly as in the run without it (calls, events, final timelines, connection status). One known finding (malformed but authenticated packets count as liveness).'),
+ 'C09':(D,'6 C09','false-alarm half: k<=2 deviation enumeration and outage grids over intervals/windows/delays/saving modes with a deterministic game; detection half: grid over every divergence frame x interval with a perturbed game, checksums compared with the games real saved states',
+        'No execution of the false-alarm space may contain a DesyncDetected event; every divergence must be reported by both peers before the session passes a computed deadline frame, naming a frame after the divergence and the two checksums the games really saved.'),
+ 'C10':(D,'6 C10','grid: moment of death x every split of the dying peer last packets between the survivor links x windows/delays/saving/timeouts (3-4 peers), slow survivor links, k<=2 deviations on the survivors link; pairwise comparison of final timelines and state hashes',
+        'Survivors must not panic and must end with identical inputs/statuses for the dropped player and identical states on every frame both confirmed. Two known findings (unequal receipt panics), keyed by the receipt split and panic message.'),
  'C12':(M,'6 C12','stateful exploration (visited set) of every fate of every handshake packet, k<=2/3 fault enumeration at three poll cadences, forged replies at every round, silence-length grids, poll-only cadence grids, undrained queues; oracles: per-address event grammar automaton, round trips matched by the simulated network, timer reference model',
         'The event stream of every explored execution must be accepted by the grammar automaton; Running must coincide, call by call, with 5 network-matched round trips per remote; interruption/resume/disconnect rounds must equal the timer model; the undrained queue must stay <= 100.'),
  'C13':(M,'6 C13','grid enumeration of all builder configurations x input programs, and every (frame, simulation index) placement of a nondeterministic step; reference model of the expected verdict',
